@@ -65,7 +65,7 @@ def _fraction_scale(ctx) -> None:
             verdict, why = None, ""
             chain = list(_parent_chain(u))
             for p in chain:
-                if isinstance(p, ast.Subscript) and isinstance(p.slice, ast.Slice) and un(p.value) == frac:
+                if isinstance(p, ast.Subscript) and isinstance(p.slice, ast.Slice) and frac in un(p.value):
                     verdict, why = False, f"`{un(p)}` truncates the fraction digits (the property asks for rounding to the microsecond)"
                     break
                 if isinstance(p, ast.Call) and nun(p.func) == "float":
@@ -151,6 +151,26 @@ def _rust_arith(ctx) -> None:
                            ": the number of iterations is chosen by the input and the release profile has overflow-checks "
                            "= false, so the value silently wraps (use checked_mul/checked_add)"), "rust/src/parsing.rs")
     ctx.count("rust_loops", n_loops)
+    # closures invoked from input-bounded loops (e.g. `.map(|v| v + digit)`) run once per input character too
+    for f in fns:
+        short = f.name.rsplit("::", 1)[-1]
+        input_loops = [scc for scc in f.sccs() if any(s_.op == "call" and "::inc" in s_.callee for b_ in scc for s_ in f.blocks[b_].stmts)
+                       and not any(s_.op in ("Lt", "Le") and re.match(r"^const \d+_u(8|16|32|size)$", s_.args[1]) for b_ in scc for s_ in f.blocks[b_].stmts)]
+        if not input_loops:
+            continue
+        called = {m_.group(0) for scc in input_loops for b_ in scc for s_ in f.blocks[b_].stmts if s_.op == "call"
+                  for m_ in re.finditer(r"\{closure@[^}]*\}", s_.raw)}
+        for cname, cf in mir.fns.items():
+            if f"::{short}::{{closure" not in cname:
+                continue
+            for _b, s_ in cf.all_stmts():
+                if s_.op in ("Add", "Mul", "Sub") and cf.types.get(s_.dest or "", "") in mirfront.INT_TYPES \
+                        and not all(a.startswith("const ") for a in s_.args):
+                    ctx.ob("RUST-ARITH.closure", f"rs:{short}/closure:{s_.op}", False,
+                           f"`{s_.raw}` inside a closure of {short} (called once per input character from an input-bounded loop) is "
+                           f"unchecked: with overflow-checks off it wraps silently", "rust/src/parsing.rs")
+        ctx.ob("RUST-ARITH.closure", f"rs:{short}/closures-scanned", True, f"closures called from input-bounded loops: {len(called)}", "rust/src/parsing.rs",
+               nontrivial=False)
     # taint: values returned by parse_duration_number(_frac) are unbounded
     for f in fns:
         short = f.name.rsplit("::", 1)[-1]
@@ -307,6 +327,12 @@ def _interval_assembly(ctx) -> None:
             ok2 = (a0, a1) in (("dt", "dt.add"), ("dt.subtract", "dt"), ("pendulum.instance", "pendulum.instance"))
             ctx.ob("INTERVAL.assembly", f"parser._parse/interval({a0}..,{a1}..)", ok2,
                    "interval(start, end): the computed endpoint must be on the right side", m.loc(c))
+    insts = [c for c in core.calls(fn) if nun(c.func) == "pendulum.instance"]
+    for i_, c in enumerate(insts):
+        tzv = nun(core.kw(c).get("tz"))
+        ctx.ob("INTERVAL.tz", f"parser._parse/pendulum.instance[{i_}]", tzv == "options.get('tz', UTC)",
+               f"`{nun(c)[:70]}` passes tz={tzv}; every interval bound without its own offset takes the tz option (default UTC)", m.loc(c))
+    ctx.ob("INTERVAL.tz", "parser._parse/instances", len(insts) >= 4, f"{len(insts)} interval bounds are wrapped with pendulum.instance", m.loc(fn), nontrivial=False)
     # attribute agreement for the duration object
     need = set(COMP.values())
     pyi = core.mod("src/pendulum/_pendulum.pyi")
